@@ -378,16 +378,13 @@ package lang
 //@   at store Variables#3 assert imp(p.RunMode > runmode.Default, fork.RunMode == p.RunMode) && imp(p.RunMode <= runmode.Default && p.Scope.RunMode > runmode.Default, fork.RunMode == p.Scope.RunMode)
 //@   at store Variables#5 assert imp(p.RunMode > runmode.Default, fork.RunMode == p.RunMode) && imp(p.RunMode <= runmode.Default && p.Scope.RunMode > runmode.Default, fork.RunMode == p.Scope.RunMode)
 //@   at call (*Config).Copy#* assert arg0 == p.Config && (bit(flags, F_FUNCTION) || bit(flags, F_NEW_CONFIG))
-//@   at store Config#1 assert bit(flags, F_FUNCTION) && fresh(fork.Config) && fork.Config != nil
-//@   at store Config#1 assert imp(fork.Process != p, fork.Config.global == ite(p.Config.global == nil, p.Config, p.Config.global))
-//@   at store Config#2 assert !bit(flags, F_FUNCTION) && bit(flags, F_NEW_CONFIG) && fresh(fork.Config) && fork.Config != nil
-//@   at store Config#2 assert imp(fork.Process != p, fork.Config.global == ite(p.Config.global == nil, p.Config, p.Config.global))
-//@   at store Config#3 assert !bit(flags, F_FUNCTION) && !bit(flags, F_NEW_CONFIG) && fork.Config == p.Config
+// (all-sites clauses: they hold wherever fork.Config / fork.Scope is assigned, in whatever order the branches are written)
+//@   at store Config#* assert ite(bit(flags, F_FUNCTION) || bit(flags, F_NEW_CONFIG), fresh(fork.Config) && fork.Config != nil, fork.Config == p.Config)
+//@   at store Config#* assert imp((bit(flags, F_FUNCTION) || bit(flags, F_NEW_CONFIG)) && fork.Process != p, fork.Config.global == ite(p.Config.global == nil, p.Config, p.Config.global))
 //@   at store Variables#1 assert bit(flags, F_FUNCTION) && fresh(fork.Variables)
 //@   at store Variables#2 assert !bit(flags, F_FUNCTION) && fork.Variables == p.Variables
 //@   at store Variables#3 assert !bit(flags, F_FUNCTION) && fork.Variables == p.Variables
-//@   at store Scope#1 assert bit(flags, F_FUNCTION) && fork.Scope == fork.Process
-//@   at store Scope#2 assert !bit(flags, F_FUNCTION) && fork.Scope == p.Scope
+//@   at store Scope#* assert ite(bit(flags, F_FUNCTION), fork.Scope == fork.Process, fork.Scope == p.Scope)
 
 // ---- C23: binding the parameters of a murex function (castParameters) ----------------------------------
 // For the i-th declared parameter (i = $idx): what is converted is the i-th supplied argument if there
